@@ -88,6 +88,9 @@ e1t("C10", "Client histories on key a (puts with unique values, linearizable rea
 e1t("C11", "Same timed exploration with reads under the linearizable policy: established leader; node 3 cut off and elected with node 2's vote while the old leader's lease is fresh (leader isolation longer than the lease is reached through further ticks); leader with a gated state machine (apply lag). Oracle: linearizability of the client history. Known defect recorded as for C10.")
 e1t("C12", "Same timed exploration with reads under the lease policy against every node that believes it is leader. Oracle, at every lease read answered from local state: the answering node is in the leader role and no other node has already become leader of a later term (the lease window must end before any other node can win an election). The configuration clause (lease shorter than the minimum election timeout) is decided by C34's grid. Known defect recorded: followers grant votes while still following a live leader, so a new leader is elected inside the old leader's lease window.")
 
+e1t("C30", "Writes (put, CAS), linearizable and lease reads and a write+read pair in one drain cycle against an established leader, a freshly elected leader whose no-op is not committed yet, and a leader whose state machine stalls; followed by any of: time passing with nothing delivered (permanent quorum loss), elections / higher-term vote requests (step-down), a follower crash, a failing apply (fatal error: the node exits and its channels close). The explorer appends to EVERY explored path a closure in which only time passes (up to 8 further timer expiries, votes unanswered). Oracle after every event: no request accepted by a live node is older than its deadline (7 s) plus tick slack without an answer (value, error or closed channel).")
+e1t("C32", "Fault prefixes (process/power crashes and graceful stops of up to a minority, restarts, broken replication streams, withheld messages, elections at their timer deadlines) from boot and under an established leader; the explorer appends to EVERY explored path the recovery closure: every down node restarts, every message is delivered in FIFO order, timers expire at their deadlines, and once a leader has confirmed itself one write is issued (bounded number of fair steps). Oracle: a leader exists, the write is acknowledged, and every live voter has applied up to the leader's commit index. Liveness is decided for this canonical fair continuation only.")
+
 NOT_BUILT = "check not built yet (work in progress, DESIGN.md section 10 build order); no verdict is claimed for this property"
 
 manifest = {
